@@ -9,11 +9,20 @@
 //         AcquisitionStart / AcquisitionStop; v = 27: the device serves text that is not a GenApi document;
 //         48 load_context, the device serves the conforming description in which TLParamsLocked is an Integer
 //            with <pValue>TLParamsLockedReg</pValue> AND <pValueCopy>TLParamsLockedMirrorReg</pValueCopy>
+//         49 load_context, the conforming description in which AcquisitionStart / AcquisitionStop carry
+//            <pIsAvailable>StartAvailReg</pIsAvailable> / <pIsAvailable>StopAvailReg</pIsAvailable>, two NoCache RO
+//            registers at words 4 / 5 of the device memory at 0x2000 (0 = the command is not available at the moment)
+//         50 load_context, TLParamsLocked is a HOST-side variable (<Integer><Value>0</Value><Min>0</Min><Max>1</Max>),
+//            AcquisitionStart <CommandValue>1</CommandValue>, AcquisitionStop <CommandValue>0</CommandValue>
+//         51 load_context, conforming (TLParamsLocked backed by its register), AcquisitionStop <CommandValue>0</CommandValue>
+//         70+v (v = 0..9) params write: params_ctxt, UserVar.set_value(v)   (every description that parses defines
+//            UserVar = <Integer><Value>1</Value></Integer>, a variable of the context: no device access)
 //         60+k (k = 0..3) bank access: params_ctxt, BankSelector.set_value(k), BankReg.value()   (every
 //            description that parses defines BankReg = <IntReg> at 0x2000 + <pIndex Offset="4">BankSelector</pIndex>,
 //            4 bytes, WriteThrough: one cache block per slot); the value read is the call's <value>
-//         1000 + 256*k + v (k = 0..3, v = 0..255): the ENVIRONMENT: the device's own memory of bank slot k becomes
-//            v, behind the host's cache; no camera method is called, nothing is logged
+//         1000 + 256*k + v (k = 0..5, v = 0..255): the ENVIRONMENT: word k of the device's own memory at 0x2000 becomes
+//            v (k = 0..3: bank slot k, behind the host's cache; k = 4 / 5: the availability status of AcquisitionStart /
+//            AcquisitionStop); no camera method is called, nothing is logged
 // failure plan: the <op index>-th fallible fake operation (0-based, counted per call, in execution
 // order; EVERY invocation of a fake method counts, so a repeated access is a second operation) of
 // call <call index> returns an error of the given fault class WITHOUT having any effect.
@@ -33,8 +42,11 @@
 // effect codes: 1 CtrlOpen 2 StrmOpen 3 GenApiFetch 4 EnableStreaming 5 SetTLParamsLocked(1)
 //   6 SetTLParamsLocked(0) 7 AcquisitionStart 8 AcquisitionStop 9 LoopStart 10 LoopStop
 //   11 DisableStreaming 12 CtrlClose 13 StrmClose 15 read of the TLParamsLocked register
+//   7 / 19 write of 1 / 0 to the AcquisitionStart register, 8 / 18 write of 1 / 0 to the AcquisitionStop register (the
+//      code carries the VALUE written; any other value: 90 a w v); the device starts / stops acquiring when the value
+//      is the CommandValue of the description loaded last
 //   16 / 17 write of 1 / 0 to the mirror register of TLParamsLocked (its <pValueCopy>)
-//   30+k device read of bank slot k
+//   30+k device read of word k of the memory at 0x2000 (k = 0..3 bank slot k, 34 / 35 the availability registers)
 //   90 a w v: unexpected register write, 91 a n: unexpected register read
 // flags (state after the call): 1 strm.is_loop_running() | 2 camera.ctxt is Some | 4/8/16 a value of the
 //   TLParamsLocked / AcquisitionStart / AcquisitionStop register is cached in the context |
@@ -61,6 +73,7 @@ const A_STOP: u64 = 0x1008;
 const A_MIRROR: u64 = 0x100C;
 const A_BANK: u64 = 0x2000;
 const NBANK: usize = 4;
+const NMEM: usize = 6; // words 4 / 5: availability status of AcquisitionStart / AcquisitionStop
 
 #[derive(Default)]
 struct World {
@@ -69,7 +82,8 @@ struct World {
     enabled: bool,
     tl: u32,
     mirror: u32,
-    bank: [u32; NBANK],
+    bank: [u32; NMEM],
+    stop_value: u32, // CommandValue of AcquisitionStop in the description loaded last
     acquiring: bool,
     alive: bool,
     variant: usize,
@@ -179,13 +193,36 @@ fn int_reg(name: &str, addr: u64, access: &str) -> String {
     )
 }
 
+fn stop_value_of(variant: usize) -> u32 {
+    if variant == 30 || variant == 31 {
+        0
+    } else {
+        1
+    }
+}
+
+fn command(name: &str, avail: Option<&str>, reg: &str, value: u32) -> String {
+    format!(
+        "<Command Name=\"{}\">{}<pValue>{}</pValue><CommandValue>{}</CommandValue></Command>",
+        name,
+        avail.map(|a| format!("<pIsAvailable>{}</pIsAvailable>", a)).unwrap_or_default(),
+        reg,
+        value
+    )
+}
+
 fn xml(variant: usize) -> String {
-    if variant == 27 || variant > 28 {
+    if variant == 27 || variant > 31 {
         return "this is not a GenApi document".into();
     }
     // 28: the conforming description with a <pValueCopy> mirror of TLParamsLocked
+    // 29: conforming, the two commands carry <pIsAvailable> backed by device registers
+    // 30: TLParamsLocked is a host-side variable, AcquisitionStop has CommandValue 0
+    // 31: conforming, AcquisitionStop has CommandValue 0
     let copy = variant == 28;
-    let (t, s, p) = if copy { (0, 0, 0) } else { (variant % 3, (variant / 3) % 3, (variant / 9) % 3) };
+    let avail = variant == 29;
+    let host = variant == 30;
+    let (t, s, p) = if variant >= 28 { (0, 0, 0) } else { (variant % 3, (variant / 3) % 3, (variant / 9) % 3) };
     let mut x = String::from(
         "<RegisterDescription ModelName=\"M\" VendorName=\"V\" StandardNameSpace=\"None\" \
          SchemaMajorVersion=\"1\" SchemaMinorVersion=\"1\" SchemaSubMinorVersion=\"0\" MajorVersion=\"1\" \
@@ -200,11 +237,30 @@ fn xml(variant: usize) -> String {
         x += "<Integer Name=\"TLParamsLocked\"><pValue>TLParamsLockedReg</pValue>\
               <pValueCopy>TLParamsLockedMirrorReg</pValueCopy></Integer>";
         x += &int_reg("TLParamsLockedMirrorReg", A_MIRROR, "RW");
+    } else if host {
+        x += "<Integer Name=\"TLParamsLocked\"><Value>0</Value><Min>0</Min><Max>1</Max></Integer>";
     } else {
         x += &feature("TLParamsLocked", t, false, "TLParamsLockedReg");
     }
-    x += &feature("AcquisitionStart", s, true, "AcquisitionStartReg");
-    x += &feature("AcquisitionStop", p, true, "AcquisitionStopReg");
+    if variant >= 29 {
+        let (a0, a1) = if avail { (Some("StartAvailReg"), Some("StopAvailReg")) } else { (None, None) };
+        x += &command("AcquisitionStart", a0, "AcquisitionStartReg", 1);
+        x += &command("AcquisitionStop", a1, "AcquisitionStopReg", stop_value_of(variant));
+        if avail {
+            for (name, k) in [("StartAvailReg", 4u64), ("StopAvailReg", 5u64)] {
+                x += &format!(
+                    "<IntReg Name=\"{}\"><Address>{}</Address><Length>4</Length><AccessMode>RO</AccessMode>\
+                     <pPort>Device</pPort><Cachable>NoCache</Cachable><Sign>Unsigned</Sign>\
+                     <Endianess>LittleEndian</Endianess></IntReg>",
+                    name,
+                    A_BANK + 4 * k
+                );
+            }
+        }
+    } else {
+        x += &feature("AcquisitionStart", s, true, "AcquisitionStartReg");
+        x += &feature("AcquisitionStop", p, true, "AcquisitionStopReg");
+    }
     x += &int_reg("TLParamsLockedReg", A_TL, "RW");
     x += &int_reg("AcquisitionStartReg", A_START, "RW");
     x += &int_reg("AcquisitionStopReg", A_STOP, "RW");
@@ -216,6 +272,8 @@ fn xml(variant: usize) -> String {
          <Sign>Unsigned</Sign><Endianess>LittleEndian</Endianess></IntReg>",
         A_BANK
     );
+    // a variable of the context (value store), written by the "params write" call
+    x += "<Integer Name=\"UserVar\"><Value>1</Value></Integer>";
     x += "<Port Name=\"Device\"></Port></RegisterDescription>";
     x
 }
@@ -252,7 +310,7 @@ impl DeviceControl for FakeCtrl {
             buf.copy_from_slice(&v.to_le_bytes());
             w.eff(&[15]);
         } else if address >= A_BANK
-            && address < A_BANK + 4 * NBANK as u64
+            && address < A_BANK + 4 * NMEM as u64
             && (address - A_BANK) % 4 == 0
             && buf.len() == 4
         {
@@ -285,7 +343,9 @@ impl DeviceControl for FakeCtrl {
             (A_TL, 1) => 5,
             (A_TL, 0) => 6,
             (A_START, 1) => 7,
+            (A_START, 0) => 19,
             (A_STOP, 1) => 8,
+            (A_STOP, 0) => 18,
             (A_MIRROR, 1) => 16,
             (A_MIRROR, 0) => 17,
             _ => 90,
@@ -302,13 +362,18 @@ impl DeviceControl for FakeCtrl {
                 w.tl = 0;
                 w.eff(&[6]);
             }
-            7 => {
-                w.acquiring = true;
-                w.eff(&[7]);
+            7 | 19 => {
+                // the CommandValue of AcquisitionStart is 1 in every description
+                if code == 7 {
+                    w.acquiring = true;
+                }
+                w.eff(&[code]);
             }
-            8 => {
-                w.acquiring = false;
-                w.eff(&[8]);
+            8 | 18 => {
+                if w.stop_value == v as u32 {
+                    w.acquiring = false;
+                }
+                w.eff(&[code]);
             }
             16 => {
                 w.mirror = 1;
@@ -453,6 +518,18 @@ fn bank_access(cam: &mut Cam, k: i64) -> Result<i64, CameleonError> {
     Ok(bank.value(&mut ctxt)?)
 }
 
+// the "params write" call: a variable of the context is written through the camera's params context
+fn user_write(cam: &mut Cam, v: i64) -> Result<i64, CameleonError> {
+    let mut ctxt = cam.params_ctxt()?;
+    let var = ctxt
+        .node("UserVar")
+        .ok_or_else(|| CameleonError::InvalidGenApiXml("missing UserVar".into()))?
+        .as_integer(&ctxt)
+        .ok_or_else(|| CameleonError::InvalidGenApiXml("UserVar has invalid interface".into()))?;
+    var.set_value(&mut ctxt, v)?;
+    Ok(-1)
+}
+
 fn cached(cam: &Cam, reg: &str, addr: u64) -> bool {
     match cam.ctxt.as_ref() {
         None => false,
@@ -490,10 +567,10 @@ fn run_case(toks: &[&str]) -> Option<Vec<i128>> {
                 .filter(|p| p[0] == ci as i128)
                 .map(|p| (p[1], p[2]))
                 .collect();
-            if (20..=48).contains(&c) {
+            if (20..=51).contains(&c) {
                 w.variant = (c - 20) as usize;
             }
-            if (1000..1000 + 256 * NBANK as i128).contains(&c) {
+            if (1000..1000 + 256 * NMEM as i128).contains(&c) {
                 // the environment changes the device's memory behind the host's cache
                 let k = ((c - 1000) / 256) as usize;
                 w.bank[k] = ((c - 1000) % 256) as u32;
@@ -507,7 +584,8 @@ fn run_case(toks: &[&str]) -> Option<Vec<i128>> {
                 4 => cam.close().map(|_| -1),
                 5 => params_access(&mut cam).map(|v| v as i128),
                 10..=19 => cam.start_streaming((c - 10) as usize).map(|_| -1),
-                20..=48 => cam.load_context().map(|_| -1),
+                20..=51 => cam.load_context().map(|_| -1),
+                70..=79 => user_write(&mut cam, (c - 70) as i64).map(|v| v as i128),
                 60..=63 => bank_access(&mut cam, (c - 60) as i64).map(|v| v as i128),
                 _ => Ok(-1),
             }
@@ -520,6 +598,11 @@ fn run_case(toks: &[&str]) -> Option<Vec<i128>> {
             }
             Ok(Err(e)) => eclass(&e),
         };
+        if res == 0 && (20..=51).contains(&c) {
+            // the description the camera holds from now on
+            let mut w = world.borrow_mut();
+            w.stop_value = stop_value_of((c - 20) as usize);
+        }
         let w = world.borrow();
         out.push(res);
         out.push(w.failed);
